@@ -8,6 +8,7 @@ import (
 	"path"
 	"path/filepath"
 	"strings"
+	"syscall"
 
 	"github.com/johannesboyne/gofakes3"
 	"github.com/spf13/afero"
@@ -55,6 +56,25 @@ func validObjectName(name string) bool {
 func invalidObjectName(name string) error {
 	return gofakes3.ErrorMessagef(gofakes3.ErrInvalidArgument,
 		"object key %q cannot be stored by this backend: keys must not contain empty, '.' or '..' path segments", name)
+}
+
+// isNotExist is os.IsNotExist, except that it also covers ENOTDIR: asking for
+// "a/b" while "a" is a regular file means "a/b" does not exist, it is not an
+// internal error.
+func isNotExist(err error) bool {
+	return os.IsNotExist(err) || errors.Is(err, syscall.ENOTDIR)
+}
+
+// dirExists reports whether name is a directory; a name that does not exist
+// (see isNotExist) or that is a regular file is not a directory.
+func dirExists(fs afero.Fs, name string) (bool, error) {
+	stat, err := fs.Stat(name)
+	if err == nil {
+		return stat.IsDir(), nil
+	} else if isNotExist(err) {
+		return false, nil
+	}
+	return false, err
 }
 
 // removeEmptyDirs removes dir (a slash-separated path relative to root) and
